@@ -614,8 +614,8 @@ where
 
 /-! ## Events of the I/O thread -/
 
-/-- `process_channel_message` -/
-def processChannelMessage (c : Conn) (n : Nat) (m : Msg) : Conn × Option Err :=
+/-- `process_channel_message` for everything but the close request's preamble (below). -/
+def processPlainMessage (c : Conn) (n : Nat) (m : Msg) : Conn × Option Err :=
   match m with
   | .connectionClose buf => (sealOut (pushOut c buf), none)
   | .send buf => (pushOut c buf, none)
@@ -636,6 +636,41 @@ def popFifo (c : Conn) (lid : Nat) : Option (Msg × Conn) :=
   match l.fifo with
   | [] => none
   | m :: rest => some (m, setLink c lid { l with fifo := rest, src := l.src.dec })
+
+/-- Take everything that is queued on channel `n` right now (`while let Some(Ok(message)) = ...`):
+    stops quietly at an empty queue, a vanished client or a vanished slot. -/
+def takeQueued : Nat → Conn → Nat → Conn × Option Err
+  | 0, c, _ => (c, some .hang)
+  | fuel + 1, c, n =>
+    match lookupN n c.slots with
+    | none => (c, none)
+    | some slot =>
+      match popFifo c slot.lid with
+      | none => (c, none)
+      | some (m, c1) =>
+        match processPlainMessage c1 n m with
+        | (c2, some e) => (c2, some e)
+        | (c2, none) => takeQueued fuel c2 n
+
+/-- … for every open channel, in ascending order of the ids (fix D17: what the channels submitted
+    before `Connection::close` was called goes out before the Close, also when their queues are not
+    being polled). -/
+def takeAllQueued (c : Conn) : List Nat → Conn × Option Err
+  | [] => (c, none)
+  | n :: more =>
+    let fuel := (match lookupN n c.slots with | some slot => (getLink c slot.lid).fifo.length | none => 0) + 1
+    match takeQueued fuel c n with
+    | (c1, some e) => (c1, some e)
+    | (c1, none) => takeAllQueued c1 more
+
+/-- `process_channel_message` -/
+def processChannelMessage (c : Conn) (n : Nat) (m : Msg) : Conn × Option Err :=
+  match m with
+  | .connectionClose buf =>
+    match takeAllQueued c ((c.slots.map (·.1)).mergeSort (· ≤ ·)) with
+    | (c1, some e) => (c1, some e)
+    | (c1, none) => (sealOut (pushOut c1 buf), none)
+  | other => processPlainMessage c n other
 
 /-- `handle_channel_readable(n)` / `handle_channel0_readable`: drain the FIFO until empty. -/
 def drainFifo : Nat → Conn → Nat → Conn × Option Err
